@@ -100,6 +100,18 @@ fn run_pipeline(program: &Program, linear: bool) -> Outcome {
     }
 }
 
+/// The gas-less pipeline (ap-change-only metadata, no gas usage check - what `cairo-run` uses without
+/// `--available-gas`): true if the program is accepted.  A panic counts as not accepted here (it is reported by the
+/// normal pipeline / C14).
+fn accepted_gasless(program: &Program) -> bool {
+    catch(AssertUnwindSafe(|| {
+        let Ok(info) = ProgramRegistryInfo::new(program) else { return false };
+        let Ok(metadata) = calc_metadata_ap_change_only(program, &info) else { return false };
+        compile(program, &info, &metadata, SierraToCasmConfig { gas_usage_check: false, max_bytecode_size: usize::MAX }).is_ok()
+    }))
+    .unwrap_or(false)
+}
+
 fn zlist(v: &[i64]) -> String {
     coq_list(&v.iter().map(|x| coq_zi(*x as i128)).collect::<Vec<_>>())
 }
@@ -817,7 +829,12 @@ fn main() {
             if base.starts_with("n_") {
                 let o = run_pipeline(&program, linear);
                 negatives_verdicts.push(format!("{base}[linear={linear}]: {:?}: {}", o.stage, o.detail.chars().take(160).collect::<String>()));
-                if o.accepted.is_some() {
+                // some rules are shadowed by the gas validation when gas metadata exists: also without gas
+                let gasless = linear && accepted_gasless(&program);
+                if gasless {
+                    negatives_verdicts.push(format!("{base}[gasless]: Accepted"));
+                }
+                if o.accepted.is_some() || gasless {
                     negatives_accepted.push(format!("{{\"program\": {:?}, \"linear_solver\": {}, \"sierra\": {:?}}}", base, linear, text));
                 }
             }
